@@ -980,6 +980,15 @@ class AirTouch5(pyairtouch.api.AirTouch):
         header: pyairtouch.at5.comms.hdr.At5Header,
         message: pyairtouch.comms.Message,
     ) -> None:
+        if (
+            self._state != _AirTouchState.CONNECTED
+            and header.to_address != pyairtouch.at5.comms.hdr.ADDRESS_CLIENT
+        ):
+            # While initialising, only responses addressed to this client may
+            # be taken as the answer to our requests. The AirTouch also relays
+            # messages addressed to other clients.
+            return
+
         # Process messages according to the current state.
         # Unhandled messages are silently ignored.
         match message:
